@@ -11,3 +11,5 @@ pub mod typed;
 pub mod frame;
 pub mod c02;
 pub mod c11;
+pub mod eng;
+pub mod c12;
